@@ -22,7 +22,7 @@ from cfgq import *
 LEVEL = 'other'
 EXPLANATION = __doc__
 ASSUMPTIONS = ['std::io::_print writes to stdout and _eprint to stderr; process::exit(n) terminates with status n']
-FLOORS = {'X.exit-table': 3, 'S.stream-table': 6, 'R.run-flow': 6, 'A.argv0': 4, 'W.who': 6, 'N.non-empty': 15}
+FLOORS = {'X.exit-table': 3, 'S.stream-table': 6, 'R.run-flow': 10, 'A.argv0': 6, 'W.who': 12, 'N.non-empty': 17}
 
 EXIT_TABLE = {
     'info::OptionParser::<T>::run': 'documented: print the failure and exit with its code',
